@@ -63,7 +63,7 @@ RegisterLaw(e) ==
     { <<"C18.register_adds_exactly_one", e.outcome = "ok" /\ post = pre \cup {Canon(e.id_chars)} /\ e.others_unchanged
                                           /\ e.new_entry = e.expected_entry>> }
 
-EntryClass == [P |-> "ProbeEnv", Q |-> "ProbeEnv2"]
+EntryClass == [P |-> "reg_drive:ProbeEnv", Q |-> "reg_drive:ProbeEnv2", R |-> "reg_other:ProbeEnv"]   \* module:Class
 (* regs: what the SPECIFICATION knows was registered in this call sequence: id -> [entry, kwargs] (from the
    arguments of the successful register calls, never read back from the implementation's registry). *)
 MakeLaw(e, regs) ==
